@@ -1,136 +1,157 @@
 (* C09 — Merged EVENT and COUNT: exactly one aggregated reply per request.
 
-   Statements only; each is closed by lemmas proved in MergeProofs.v and
-   followed by Print Assumptions.
+   Statements only; each is closed by lemmas proved in MergeAggProofs.v /
+   MergeOracleProofs.v and followed by Print Assumptions.
 
    Reading guide (see also Properties/C08.v).
    - A history is a list of inputs, each one critical section of the code.
      [trace_ok n t]: child indices are below [n] (and the REQ-side gate).
      Every interleaving of the children's replies with each other and with
-     client input is a history; the theorems quantify over all of them.
-   - The *window* of an EVENT with id [id]: the inputs [w] after it up to the
-     next EVENT with that id ([no_cevent id w]); [evt_outs s id w] is what
-     the client receives at each step of [w].  Same for COUNT
-     ([no_ccount], [cnt_outs]).
-   - [ok_replies n id w] is, per child, the last OK for [id] the child sent
-     in [w]; [all_replied n id w] says every child sent one.  When every
-     child answers each request once — the property's quantifier — the last
-     reply is the reply.
-   - Guard [no_overlap n t]: whenever an EVENT (COUNT) with some id is
-     submitted, every earlier submission with that id has been answered by
-     every child ([idle_ev], [idle_cnt]).  Without the guard the statement
-     is false of the code: C09_ok_exactly_one_refuted,
-     C09_count_exactly_one_refuted (finding K1). *)
-From Moc Require Import Base Match MatchProofs Merge MergeProofs MergeOracleProofs.
+     client input is a history; the theorems quantify over all of them, with
+     any number of requests in flight and repeated ids.
+   - [ok_replies_of id i t]: the OKs child [i] sent for event id [id] in [t],
+     oldest first; [ok_column n id j t]: the [j]-th of them for every child, in
+     child order ([None] where a child has not sent its [j]-th yet).  Same for
+     COUNT ([cnt_replies_of], [cnt_column]).
+   - [answers_in_order t] is the property's quantifier "children that answer
+     each EVENT with one OK and each COUNT with one COUNT": whenever a child
+     sends an OK for [id] it has sent fewer OKs for [id] than EVENTs with that
+     id were submitted — the reply answers a submission the child had not
+     answered, and as a child is a sequential handler it answers the
+     submissions of one id in the order it received them, so its [j]-th OK for
+     [id] is its answer to the [j]-th EVENT [id].  That every child does
+     answer is the extra hypothesis of the "exactly one" theorems.
+   - The code this is proved of keeps, per id, the number of submissions
+     awaiting their merged reply and one FIFO queue of replies per child
+     (repair of finding K1).  For the code before the repair the statement
+     was false: [C09_k1_history_old_model_refuted]. *)
+From Moc Require Import Base Match MatchProofs Merge MergeProofs MergeAggProofs MergeOracleProofs MergeOld.
 Open Scope Z_scope.
 
-(** exactly one OK carrying the event's id once every child has replied, none
-    before; so: one OK per EVENT *)
-Theorem C09_ok_exactly_one : forall n t pre id w rest,
-  (2 <= n)%nat -> trace_ok n t -> no_overlap n t ->
-  t = pre ++ CEvent id :: w ++ rest -> no_cevent id w ->
-  count_occ_b (is_ok_out id) (evt_outs (final (init n) pre) id w) =
-  if all_replied n id w then 1%nat else 0%nat.
-Proof. exact ok_exactly_one_reach. Qed.
+(** every child answered every EVENT [id]: exactly one OK per EVENT [id] *)
+Theorem C09_ok_exactly_one : forall n t id,
+  (2 <= n)%nat -> trace_ok n t -> answers_in_order t ->
+  (forall i, (i < n)%nat -> length (ok_replies_of id i t) = count_occ_b (is_cevent_of id) t) ->
+  count_occ_b (is_ok_out id) (outs (init n) t) = count_occ_b (is_cevent_of id) t.
+Proof. intros n t id Hn Ht [Ho _]. apply ok_exactly_one; auto. lia. Qed.
 Print Assumptions C09_ok_exactly_one.
 
-(** it is output at the step of the last child's reply and is accepting iff
-    every child accepted *)
-Theorem C09_ok_verdict : forall n t pre id w1 x w2 rest r,
-  (2 <= n)%nat -> trace_ok n t -> no_overlap n t ->
-  t = pre ++ CEvent id :: (w1 ++ x :: w2) ++ rest -> no_cevent id (w1 ++ x :: w2) ->
-  nth_error (evt_outs (final (init n) pre) id (w1 ++ x :: w2)) (length w1) = Some (Some (SOk r)) ->
-  ok_id r = id ->
-  all_replied n id w1 = false /\
-  exists replies, ok_replies n id (w1 ++ [x]) = List.map Some replies /\ length replies = n /\
+(** at every moment: as many OKs for [id] as there are submissions of [id]
+    that every child has answered (the [j]-th OK exists iff every child has
+    sent its [j]-th OK for [id]) — one OK once all children have replied, none
+    before; and never more OKs than EVENTs *)
+Theorem C09_ok_one_per_answered_event : forall n t id j,
+  (2 <= n)%nat -> trace_ok n t -> answers_in_order t ->
+  ((j < count_occ_b (is_ok_out id) (outs (init n) t))%nat <->
+   forall i, (i < n)%nat -> (j < length (ok_replies_of id i t))%nat).
+Proof. intros n t id j Hn Ht [Ho _]. apply ok_replies_count; auto. lia. Qed.
+Print Assumptions C09_ok_one_per_answered_event.
+
+Theorem C09_ok_never_exceeds_events : forall n t id,
+  (2 <= n)%nat -> trace_ok n t -> answers_in_order t ->
+  (count_occ_b (is_ok_out id) (outs (init n) t) <= count_occ_b (is_cevent_of id) t)%nat.
+Proof. intros n t id Hn Ht [Ho _]. apply ok_le_events; auto. lia. Qed.
+Print Assumptions C09_ok_never_exceeds_events.
+
+(** an OK [r] output at a step is the [j]-th OK for its id ([j] = the number of
+    OKs for that id before): some child's [j]-th reply was still missing before
+    the step, at the step every child has given its [j]-th reply, and [r] is
+    accepting iff all of those accepted *)
+Theorem C09_ok_verdict : forall n w1 x w2 r,
+  (2 <= n)%nat -> trace_ok n (w1 ++ x :: w2) -> answers_in_order (w1 ++ x :: w2) ->
+  nth_error (outs (init n) (w1 ++ x :: w2)) (length w1) = Some (Some (SOk r)) ->
+  let id := ok_id r in
+  let j := count_occ_b (is_ok_out id) (outs (init n) w1) in
+  (exists i, (i < n)%nat /\ nth_error (ok_replies_of id i w1) j = None) /\
+  exists replies, ok_column n id j (w1 ++ [x]) = List.map Some replies /\ length replies = n /\
     (ok_acc r = true <-> forall c, In c replies -> ok_acc c = true).
 Proof.
-  intros n t pre id w1 x w2 rest r Hn Ht Hno Et Hnc Hnth Hid.
-  destruct (ok_verdict_reach n t pre id w1 x w2 rest r Hn Ht Hno Et Hnc Hnth Hid) as [H1 [rs [H2 [H3 [_ [H4 _]]]]]].
-  split; [exact H1|]. exists rs. auto.
+  intros n w1 x w2 r Hn Ht [Ho _] Hnth id j.
+  destruct (ok_at n w1 x w2 r (ge2_ge1 n Hn) Ht Ho Hnth) as [H1 [xs [H2 [H3 [H4 H5]]]]].
+  split; [exact H1|]. exists xs. split; [exact H2|]. split; [exact H3|].
+  apply (ok_merge_verdict id xs r H4 H5).
 Qed.
 Print Assumptions C09_ok_verdict.
 
 (** a rejecting OK begins with the text (prefix + message) of the
     lowest-numbered rejecting child, so its machine-readable prefix survives *)
-Theorem C09_ok_prefix_survives : forall n t pre id w1 x w2 rest r,
-  (2 <= n)%nat -> trace_ok n t -> no_overlap n t ->
-  t = pre ++ CEvent id :: (w1 ++ x :: w2) ++ rest -> no_cevent id (w1 ++ x :: w2) ->
-  nth_error (evt_outs (final (init n) pre) id (w1 ++ x :: w2)) (length w1) = Some (Some (SOk r)) ->
-  ok_id r = id -> ok_acc r = false ->
+Theorem C09_ok_prefix_survives : forall n w1 x w2 r,
+  (2 <= n)%nat -> trace_ok n (w1 ++ x :: w2) -> answers_in_order (w1 ++ x :: w2) ->
+  nth_error (outs (init n) (w1 ++ x :: w2)) (length w1) = Some (Some (SOk r)) ->
+  ok_acc r = false ->
+  let id := ok_id r in
+  let j := count_occ_b (is_ok_out id) (outs (init n) w1) in
   exists replies before c after tail,
-    ok_replies n id (w1 ++ [x]) = List.map Some replies /\
+    ok_column n id j (w1 ++ [x]) = List.map Some replies /\
     replies = before ++ c :: after /\
     (forall b, In b before -> ok_acc b = true) /\ ok_acc c = false /\
     ok_message r = ok_message c ++ tail.
 Proof.
-  intros n t pre id w1 x w2 rest r Hn Ht Hno Et Hnc Hnth Hid Hrej.
-  destruct (ok_verdict_reach n t pre id w1 x w2 rest r Hn Ht Hno Et Hnc Hnth Hid) as [_ [rs [H2 [_ [_ [_ H5]]]]]].
-  destruct (H5 Hrej) as [before [c [after [tail [E1 [E2 [E3 E4]]]]]]].
-  exists rs, before, c, after, tail. auto.
+  intros n w1 x w2 r Hn Ht [Ho _] Hnth Hrej id j.
+  destruct (ok_at n w1 x w2 r (ge2_ge1 n Hn) Ht Ho Hnth) as [_ [xs [H2 [_ [H4 H5]]]]].
+  destruct (ok_merge_verdict id xs r H4 H5) as [_ [_ H6]].
+  destruct (H6 Hrej) as [before [c [after [tail [E1 [E2 [E3 E4]]]]]]].
+  exists xs, before, c, after, tail. auto.
 Qed.
 Print Assumptions C09_ok_prefix_survives.
 
-(** exactly one COUNT reply once every child has replied, none before *)
-Theorem C09_count_exactly_one : forall n pre sub w,
-  (2 <= n)%nat -> trace_ok n (pre ++ CCount sub :: w) -> no_ccount sub w ->
-  count_occ_b (is_count_out sub) (cnt_outs (final (init n) pre) sub w) =
-  if all_counted n sub w then 1%nat else 0%nat.
-Proof. exact count_exactly_one_reach. Qed.
+(** every child answered every COUNT [sub]: exactly one COUNT reply per COUNT *)
+Theorem C09_count_exactly_one : forall n t sub,
+  (2 <= n)%nat -> trace_ok n t -> answers_in_order t ->
+  (forall i, (i < n)%nat -> length (cnt_replies_of sub i t) = count_occ_b (is_ccount_of sub) t) ->
+  count_occ_b (is_count_out sub) (outs (init n) t) = count_occ_b (is_ccount_of sub) t.
+Proof. intros n t sub Hn Ht [_ Ho]. apply count_exactly_one; auto. lia. Qed.
 Print Assumptions C09_count_exactly_one.
 
-(** it is output at the step of the last child's reply and carries the
-    maximum of the children's counts (it is one of the children's replies) *)
-Theorem C09_count_is_max : forall n pre sub w1 x w2 r,
-  (2 <= n)%nat -> trace_ok n (pre ++ CCount sub :: w1 ++ x :: w2) -> no_ccount sub (w1 ++ x :: w2) ->
-  nth_error (cnt_outs (final (init n) pre) sub (w1 ++ x :: w2)) (length w1) = Some (Some (SCount r)) ->
-  c_sub r = sub ->
-  all_counted n sub w1 = false /\
-  exists replies, cnt_replies n sub (w1 ++ [x]) = List.map Some replies /\ length replies = n /\
+Theorem C09_count_one_per_answered_request : forall n t sub j,
+  (2 <= n)%nat -> trace_ok n t -> answers_in_order t ->
+  ((j < count_occ_b (is_count_out sub) (outs (init n) t))%nat <->
+   forall i, (i < n)%nat -> (j < length (cnt_replies_of sub i t))%nat).
+Proof. intros n t sub j Hn Ht [_ Ho]. apply cnt_replies_count; auto. lia. Qed.
+Print Assumptions C09_count_one_per_answered_request.
+
+Theorem C09_count_never_exceeds_requests : forall n t sub,
+  (2 <= n)%nat -> trace_ok n t -> answers_in_order t ->
+  (count_occ_b (is_count_out sub) (outs (init n) t) <= count_occ_b (is_ccount_of sub) t)%nat.
+Proof. intros n t sub Hn Ht [_ Ho]. apply cnt_le_requests; auto. lia. Qed.
+Print Assumptions C09_count_never_exceeds_requests.
+
+(** a COUNT reply output at a step is the [j]-th for its id; it is output at
+    the step of the last child's [j]-th reply and carries the maximum of the
+    children's [j]-th counts (it is one of those replies) *)
+Theorem C09_count_is_max : forall n w1 x w2 r,
+  (2 <= n)%nat -> trace_ok n (w1 ++ x :: w2) -> answers_in_order (w1 ++ x :: w2) ->
+  nth_error (outs (init n) (w1 ++ x :: w2)) (length w1) = Some (Some (SCount r)) ->
+  let sub := c_sub r in
+  let j := count_occ_b (is_count_out sub) (outs (init n) w1) in
+  (exists i, (i < n)%nat /\ nth_error (cnt_replies_of sub i w1) j = None) /\
+  exists replies, cnt_column n sub j (w1 ++ [x]) = List.map Some replies /\ length replies = n /\
     In r replies /\ (forall c, In c replies -> c_count c <= c_count r).
 Proof.
-  intros n pre sub w1 x w2 r Hn Ht Hnc Hnth Hid.
-  destruct (count_is_max_reach n pre sub w1 x w2 r Hn Ht Hnc Hnth Hid) as [H1 [rs [H2 [H3 [_ [H4 H5]]]]]].
-  split; [exact H1|]. exists rs. auto.
+  intros n w1 x w2 r Hn Ht [_ Ho] Hnth sub j.
+  destruct (count_at n w1 x w2 r (ge2_ge1 n Hn) Ht Ho Hnth) as [H1 [xs [H2 [H3 [H4 H5]]]]].
+  split; [exact H1|]. exists xs. split; [exact H2|]. split; [exact H3|].
+  destruct (cnt_merge_max sub xs r H4 H5) as [_ [H6 H7]]. auto.
 Qed.
 Print Assumptions C09_count_is_max.
 
 (** more precisely it is the reply of the lowest-numbered child among those
     with the maximal count (what slices.MaxFunc returns) *)
-Theorem C09_count_is_first_max : forall n pre sub w1 x w2 r,
-  (2 <= n)%nat -> trace_ok n (pre ++ CCount sub :: w1 ++ x :: w2) -> no_ccount sub (w1 ++ x :: w2) ->
-  nth_error (cnt_outs (final (init n) pre) sub (w1 ++ x :: w2)) (length w1) = Some (Some (SCount r)) ->
-  c_sub r = sub ->
+Theorem C09_count_is_first_max : forall n w1 x w2 r,
+  (2 <= n)%nat -> trace_ok n (w1 ++ x :: w2) -> answers_in_order (w1 ++ x :: w2) ->
+  nth_error (outs (init n) (w1 ++ x :: w2)) (length w1) = Some (Some (SCount r)) ->
+  let sub := c_sub r in
+  let j := count_occ_b (is_count_out sub) (outs (init n) w1) in
   exists before after,
-    cnt_replies n sub (w1 ++ [x]) = List.map Some (before ++ r :: after) /\
+    cnt_column n sub j (w1 ++ [x]) = List.map Some (before ++ r :: after) /\
     forall b, In b before -> c_count b < c_count r.
-Proof. exact count_is_first_max_reach. Qed.
+Proof.
+  intros n w1 x w2 r Hn Ht [_ Ho] Hnth sub j.
+  destruct (count_at n w1 x w2 r (ge2_ge1 n Hn) Ht Ho Hnth) as [_ [xs [H2 [_ [H4 _]]]]].
+  destruct (cnt_merge_first xs r H4) as [before [after [E Hb]]].
+  exists before, after. split; [now rewrite <- E | exact Hb].
+Qed.
 Print Assumptions C09_count_is_first_max.
-
-(** Whole histories.  If, after the history [t], no EVENT with id [id] is in
-    flight — every submission was answered by every child before the next
-    one with that id came ([idle_ev], the guard along the whole history) —
-    the client has received exactly as many OKs for [id] as it submitted
-    EVENTs with that id; and likewise for COUNT. *)
-Theorem C09_ok_count_equals_event_count : forall n id t,
-  (2 <= n)%nat -> trace_ok n t -> idle_ev n id t ->
-  count_occ_b (is_ok_out id) (outs (init n) t) = count_occ_b (is_cevent_of id) t.
-Proof. intros n id t Hn. apply ok_count_equals_event_count. lia. Qed.
-Print Assumptions C09_ok_count_equals_event_count.
-
-Theorem C09_count_count_equals_request_count : forall n sub t,
-  (2 <= n)%nat -> trace_ok n t -> idle_cnt n sub t ->
-  count_occ_b (is_count_out sub) (outs (init n) t) = count_occ_b (is_ccount_of sub) t.
-Proof. intros n sub t Hn. apply count_count_equals_request_count. lia. Qed.
-Print Assumptions C09_count_count_equals_request_count.
-
-(** the guard, read off the history, is what the windows need: no slot vector
-    is held for an id that is not in flight *)
-Theorem C09_idle_means_no_slot : forall n id pre,
-  (1 <= n)%nat -> trace_ok n pre -> idle_ev n id pre ->
-  assoc id (os_s (st_os (final (init n) pre))) = None.
-Proof. exact idle_ev_slot. Qed.
-Print Assumptions C09_idle_means_no_slot.
 
 (** an aggregated reply carries the id of the request it answers *)
 Theorem C09_reply_id_preserved : forall n pre i m o,
@@ -141,133 +162,107 @@ Theorem C09_reply_id_preserved : forall n pre i m o,
 Proof. intros n pre i m o Ht Hi. apply (reply_id_preserved n); [now apply reach_ok | exact Hi]. Qed.
 Print Assumptions C09_reply_id_preserved.
 
-(** Without the guard: two EVENTs with one id in flight, two children, replies
-    a1 a2 b1 b2 — two submissions, each answered by both children, ONE OK, and
-    its verdict mixes the reply to the second submission (child 0) with the
-    reply to the first (child 1).  The implementation behaves identically
-    (corpus/C09, finding K1). *)
-Theorem C09_ok_exactly_one_refuted :
-  exists t id, trace_ok 2 t /\
-    count_occ_b (is_cevent_of id) t = 2%nat /\
-    replies_of_child_ev id 0 t = 2%nat /\ replies_of_child_ev id 1 t = 2%nat /\
-    count_occ_b (is_ok_out id) (outs (init 2) t) = 1%nat /\
-    outs (init 2) t = [None; None; None; None;
-                       Some (SOk (mkOk id false [] (ok_message k1_a2))); None].
-Proof. exact ok_exactly_one_refuted. Qed.
-Print Assumptions C09_ok_exactly_one_refuted.
-
-Theorem C09_count_exactly_one_refuted :
-  exists t sub, trace_ok 2 t /\
-    count_occ_b (is_ccount_of sub) t = 2%nat /\
-    replies_of_child_cnt sub 0 t = 2%nat /\ replies_of_child_cnt sub 1 t = 2%nat /\
-    count_occ_b (is_count_out sub) (outs (init 2) t) = 1%nat.
-Proof. exact count_exactly_one_refuted. Qed.
-Print Assumptions C09_count_exactly_one_refuted.
-
-(** the refuting history is one the guard excludes *)
-Theorem C09_refuting_history_overlaps : ~ no_overlap 2 k1_trace.
-Proof. exact k1_trace_overlaps. Qed.
-Print Assumptions C09_refuting_history_overlaps.
-
-(** All of the above in one statement over whole histories: the boolean oracle
-    [c09_oracle] — the text of C09 as a judgement of an observed history: a
-    child's reply answers the oldest request with that id the child has not
-    answered yet; when the last child's reply to a request arrives, exactly one
-    aggregated reply comes out at that step (an OK with the request's id,
-    accepting iff every child accepted, a rejecting one beginning with the
-    lowest-numbered rejecting child's text; a COUNT with the maximum of the
-    children's counts), nothing comes out at any other step, a CLOSE or a REQ
-    changes nothing — accepts what the model does on every gated history of
-    every length, for every number of children, that keeps the discipline
-    [c09_disciplined]: a request is submitted only while no request of that
-    kind with the same id is in flight, and a child answers a request in flight
-    at most once (replies nobody waits for are allowed).  This is the oracle the
-    correspondence check applies to the implementation.  Outside the discipline
-    the statement is false of this code (finding K1, below). *)
+(** All of the above in one statement over whole histories and without any
+    hypothesis on the children: the boolean oracle [c09_oracle] — the text of
+    C09 as a judgement of an observed history: a child's reply answers the
+    oldest request with that id the child has not answered yet; when the last
+    child's reply to a request arrives, exactly one aggregated reply comes out
+    at that step (an OK with the request's id, accepting iff every child
+    accepted, a rejecting one beginning with the lowest-numbered rejecting
+    child's text; a COUNT with the maximum of the children's counts), nothing
+    comes out at any other step, a reply nobody waits for is dropped, a CLOSE
+    or a REQ changes nothing — accepts what the model does on EVERY gated
+    history of every length, for every number of children.  This is the oracle
+    the correspondence check applies to the implementation. *)
 Theorem C09_model_satisfies_oracle : forall n t,
-  (2 <= n)%nat -> trace_ok n t -> c09_disciplined n t -> c09_oracle n (obs_of (init n) t) = true.
+  (2 <= n)%nat -> trace_ok n t -> c09_oracle n (obs_of (init n) t) = true.
 Proof. intros n t Hn. apply model_satisfies_c09_oracle. lia. Qed.
 Print Assumptions C09_model_satisfies_oracle.
 
-(** so a disciplined observation that the model reproduces step by step is
-    one the oracle accepts *)
+(** so an observation that the model reproduces step by step is one the
+    oracle accepts *)
 Theorem C09_agreement_implies_oracle : forall n t,
-  (2 <= n)%nat -> trace_ok n (List.map fst t) -> c09_disciplined n (List.map fst t) ->
-  model_agrees (init n) t = true -> c09_oracle n t = true.
+  (2 <= n)%nat -> trace_ok n (List.map fst t) -> model_agrees (init n) t = true -> c09_oracle n t = true.
 Proof. intros n t Hn. apply agreement_implies_c09_oracle. lia. Qed.
 Print Assumptions C09_agreement_implies_oracle.
 
-(** the discipline cannot be dropped: on the K1 history the oracle rejects what
-    the model (and the implementation) does *)
-Theorem C09_oracle_rejects_k1 :
-  trace_ok 2 k1_trace /\ ~ c09_disciplined 2 k1_trace /\ c09_oracle 2 (obs_of (init 2) k1_trace) = false.
+(* ------------------------------------------------------------------ *)
+(** Finding K1 (repaired).  Two EVENTs with one id in flight, two children,
+    replies a1 a2 b1 b2 (child 0 accepts the first submission and rejects the
+    second, child 1 accepts both).  The history meets every hypothesis above.
+    The code BEFORE the repair ([MergeOld.old_step], one slot vector per id)
+    emitted ONE OK for the two submissions, mixing child 0's reply to the
+    second with child 1's reply to the first; the repaired code emits two,
+    the first accepting, the second rejecting with child 0's text. *)
+Definition k1_id : str := [120]%N.
+Definition k1_a1 : okm := mkOk k1_id true [] [].
+Definition k1_a2 : okm := mkOk k1_id false [98; 108; 111; 99; 107; 101; 100; 58; 32]%N [110; 111]%N.
+Definition k1_b1 : okm := mkOk k1_id true [] [].
+Definition k1_b2 : okm := mkOk k1_id true [] [].
+Definition k1_trace : list input :=
+  [CEvent k1_id; CEvent k1_id; Child 0 (SOk k1_a1); Child 0 (SOk k1_a2); Child 1 (SOk k1_b1); Child 1 (SOk k1_b2)].
+Definition k1_sub : str := [99]%N.
+Definition k1_trace_count : list input :=
+  [CCount k1_sub; CCount k1_sub; Child 0 (SCount (mkCnt k1_sub 1 None)); Child 0 (SCount (mkCnt k1_sub 5 None));
+   Child 1 (SCount (mkCnt k1_sub 2 None)); Child 1 (SCount (mkCnt k1_sub 3 None))].
+
+Theorem C09_k1_history_old_model_refuted :
+  trace_ok 2 k1_trace /\ answers_in_order k1_trace /\
+  count_occ_b (is_cevent_of k1_id) k1_trace = 2%nat /\
+  length (ok_replies_of k1_id 0 k1_trace) = 2%nat /\ length (ok_replies_of k1_id 1 k1_trace) = 2%nat /\
+  old_outs (old_init 2) k1_trace =
+    [None; None; None; None; Some (SOk (mkOk k1_id false [] (ok_message k1_a2))); None] /\
+  trace_ok 2 k1_trace_count /\ answers_in_order k1_trace_count /\
+  count_occ_b (is_ccount_of k1_sub) k1_trace_count = 2%nat /\
+  count_occ_b (is_count_out k1_sub) (old_outs (old_init 2) k1_trace_count) = 1%nat.
 Proof.
-  split; [exact k1_trace_ok|]. split; [|vm_compute; reflexivity].
-  unfold c09_disciplined. vm_compute. discriminate.
+  split; [unfold trace_ok, k1_trace; repeat constructor|].
+  split; [apply in_orderb_answers; vm_compute; reflexivity|].
+  split; [vm_compute; reflexivity|]. split; [vm_compute; reflexivity|]. split; [vm_compute; reflexivity|].
+  split; [vm_compute; reflexivity|].
+  split; [unfold trace_ok, k1_trace_count; repeat constructor|].
+  split; [apply in_orderb_answers; vm_compute; reflexivity|].
+  split; vm_compute; reflexivity.
 Qed.
-Print Assumptions C09_oracle_rejects_k1.
+Print Assumptions C09_k1_history_old_model_refuted.
+
+Theorem C09_k1_history_repaired :
+  outs (init 2) k1_trace =
+    [None; None; None; None; Some (SOk (mkOk k1_id true [] [])); Some (SOk (mkOk k1_id false [] (ok_message k1_a2)))] /\
+  outs (init 2) k1_trace_count =
+    [None; None; None; None; Some (SCount (mkCnt k1_sub 2 None)); Some (SCount (mkCnt k1_sub 5 None))].
+Proof. split; vm_compute; reflexivity. Qed.
+Print Assumptions C09_k1_history_repaired.
 
 (* ------------------------------------------------------------------ *)
-(** Non-vacuity: a history with two children in which the id [x] is
-    submitted twice, one after the other; it meets the guard, and the model
-    answers each submission once: the first rejected (child 1 said
-    "blocked: no"), the second accepted. *)
-
+(** Non-vacuity: a history with two children, three EVENTs with the id [x] of
+    which two are in flight together, a COUNT [y] and a CLOSE/REQ with the same
+    ids in between, the children's replies interleaved; it meets every
+    hypothesis (gate, [answers_in_order], every child answered everything),
+    and the model answers each request once. *)
 Example ex_id : str := [120]%N.
+Example ex_sub : str := [121]%N.
 Example ex_ok : okm := mkOk ex_id true [] [].
 Example ex_ng : okm := mkOk ex_id false [98; 108; 111; 99; 107; 101; 100; 58; 32]%N [110; 111]%N.
 Example ex_t : list input :=
-  [CEvent ex_id; Child 1 (SOk ex_ng); Child 0 (SOk ex_ok);
-   CEvent ex_id; Child 0 (SOk ex_ok); Child 1 (SOk ex_ok)].
+  [CEvent ex_id; CEvent ex_id; CCount ex_sub; Child 1 (SOk ex_ng); CClose ex_sub; Child 1 (SOk ex_ok);
+   Child 0 (SCount (mkCnt ex_sub 3 None)); Child 0 (SOk ex_ok); CReq ex_id []; CEvent ex_id;
+   Child 1 (SCount (mkCnt ex_sub 7 None)); Child 0 (SOk ex_ok); Child 0 (SOk ex_ok); Child 1 (SOk ex_ok)].
 
-Example C09_example_hypotheses : trace_ok 2 ex_t /\ no_overlap 2 ex_t.
+Example C09_example_hypotheses :
+  trace_ok 2 ex_t /\ answers_in_order ex_t /\
+  (forall i, (i < 2)%nat -> length (ok_replies_of ex_id i ex_t) = count_occ_b (is_cevent_of ex_id) ex_t) /\
+  (forall i, (i < 2)%nat -> length (cnt_replies_of ex_sub i ex_t) = count_occ_b (is_ccount_of ex_sub) ex_t).
 Proof.
   split; [unfold trace_ok, ex_t; repeat constructor|].
-  split.
-  - intros pre id rest E. unfold ex_t in E.
-    destruct pre as [|p1 pre]; cbn in E.
-    { apply idle_ev_none. intros y []. }
-    inversion E as [[E1 E2]]; clear E. subst p1.
-    destruct pre as [|p2 pre]; cbn in E2; [discriminate|]. inversion E2 as [[E1 E3]]; clear E2. subst p2.
-    destruct pre as [|p3 pre]; cbn in E3; [discriminate|]. inversion E3 as [[E1 E4]]; clear E3. subst p3.
-    destruct pre as [|p4 pre]; cbn in E4.
-    { inversion E4; subst.
-      apply (idle_ev_done 2 ex_id [] [Child 1 (SOk ex_ng); Child 0 (SOk ex_ok)]).
-      - apply idle_ev_none. intros y [].
-      - intros y [<-|[<-|[]]]; reflexivity.
-      - reflexivity. }
-    inversion E4 as [[E1 E5]]; clear E4. subst p4.
-    destruct pre as [|p5 pre]; cbn in E5; [discriminate|]. inversion E5 as [[E1 E6]]; clear E5. subst p5.
-    destruct pre as [|p6 pre]; cbn in E6; [discriminate|]. inversion E6 as [[E1 E7]]; clear E6.
-    destruct pre; discriminate.
-  - intros pre sub rest E. unfold ex_t in E.
-    do 6 (destruct pre as [|? pre]; cbn in E; [discriminate|]; injection E as Eh E; clear Eh).
-    destruct pre; discriminate.
+  split; [apply in_orderb_answers; vm_compute; reflexivity|].
+  split; intros i Hi; destruct i as [|[|i]]; try lia; vm_compute; reflexivity.
 Qed.
 
 Example C09_example_run :
   outs (init 2) ex_t =
-  [None; None; Some (SOk (mkOk ex_id false [] (ok_message ex_ng)));
-   None; None; Some (SOk (mkOk ex_id true [] []))].
+  [None; None; None; None; None; None; None;
+   Some (SOk (mkOk ex_id false [] (ok_message ex_ng))); None; None;
+   Some (SCount (mkCnt ex_sub 7 None));
+   Some (SOk (mkOk ex_id true [] [])); None; Some (SOk (mkOk ex_id true [] []))].
 Proof. vm_compute. reflexivity. Qed.
-
-(** ... and it keeps the discipline of [C09_model_satisfies_oracle]; so does a
-    history with two requests in flight under different ids, a CLOSE and a REQ
-    with those ids in between, and a late reply nobody waits for *)
-Example ex_id2 : str := [121]%N.
-Example ex_t2 : list input :=
-  [CEvent ex_id; CCount ex_id2; CEvent ex_id2; Child 1 (SOk ex_ng); CClose ex_id;
-   Child 0 (SCount (mkCnt ex_id2 3 None)); CReq ex_id2 []; Child 0 (SOk (mkOk ex_id2 true [] []));
-   Child 0 (SOk ex_ok); CClose ex_id2; Child 1 (SCount (mkCnt ex_id2 7 None));
-   Child 1 (SOk (mkOk ex_id2 true [] [])); Child 1 (SOk ex_ok)].
-
-Example C09_example_discipline :
-  c09_disciplined 2 ex_t /\ trace_ok 2 ex_t2 /\ c09_disciplined 2 ex_t2 /\
-  outs (init 2) ex_t2 =
-  [None; None; None; None; None; None; None; None;
-   Some (SOk (mkOk ex_id false [] (ok_message ex_ng))); None;
-   Some (SCount (mkCnt ex_id2 7 None)); Some (SOk (mkOk ex_id2 true [] [])); None].
-Proof.
-  split; [vm_compute; reflexivity|]. split; [unfold trace_ok, ex_t2; repeat constructor|].
-  split; vm_compute; reflexivity.
-Qed.
